@@ -28,6 +28,10 @@ func genRoutingCase(t *rapid.T, adversarial bool) RoutingCase {
 	}
 	c.Table = gen.Table(t, cfg)
 	c.Reqs = genRequests(t, c.Table, cfg, 1, 12)
+	if rapid.IntRange(0, 4).Draw(t, "routerswapped") == 0 {
+		// the container had the other router installed first
+		c.Extra = map[string]int64{"router_swapped": 1}
+	}
 	if rapid.IntRange(0, 2).Draw(t, "viaserve") == 0 {
 		// through ServeHTTP: net/http's mux sits in front (pattern registration, path cleaning)
 		c.Via = harness.ViaServe
@@ -42,8 +46,12 @@ func muxAnswered(via string, o harness.Outcome) bool {
 }
 
 func buildRouting(c RoutingCase, rec *harness.Recorder, nContainerFilters int) (*restful.Container, interface{}) {
+	swapped := c.Extra["router_swapped"] == 1
 	if c.Via == harness.ViaServe {
-		return buildWith(c.Table, &harness.Options{Router: c.Router, ContainerFilters: nContainerFilters}, rec, false)
+		return buildWith(c.Table, &harness.Options{Router: c.Router, ContainerFilters: nContainerFilters, SwapRouterFirst: swapped}, rec, false)
+	}
+	if swapped {
+		return buildDispatchOnlySwapped(c.Table, c.Router, rec, nContainerFilters)
 	}
 	return buildDispatchOnly(c.Table, c.Router, rec, nContainerFilters)
 }
